@@ -1799,7 +1799,10 @@ int tls_recv(TLS_CONNECT *conn, uint8_t *out, size_t outlen, size_t *recvlen)
 			// should call tls_process_alert()
 			int level;
 			int alert;
-			tls_record_get_alert(conn->databuf, &level, &alert);
+			if (tls_record_get_alert(conn->databuf, &level, &alert) != 1) {
+				error_print();
+				return -1;
+			}
 			if (alert == TLS_alert_close_notify) {
 				tls_trace("recv Alert.close_notify\n");
 				return 0;
